@@ -944,6 +944,19 @@ func runLoss(rec *vcommon.Rec, c *anyCase) (stalled bool) {
 			rec.Inconclusive("fixture: server restart failed: "+err.Error(), c)
 			return false
 		}
+		if c.Kind == "dns" {
+			// a datagram carrier gives no close signal: the new server answers the old session's requests with errors and
+			// the client has to conclude from them (or from its keep-alive) that the session is gone. A connection opened
+			// meanwhile is the one the client gives up; 100 s without any progress is far beyond every timer involved.
+			victim := s.connect(key+3, 1000, long, false)
+			obs["connection_opened_on_the_forgotten_session"] = victim.short()
+			if victim.Outcome == "stalled" {
+				rec.Case(c.key(), true)
+				obs["goroutines"] = e2e.Clip(e2e.Stacks(), 40000)
+				rec.Violation("reconnect:session-the-server-forgot-is-never-given-up:"+c.Kind, c, obs)
+				return true
+			}
+		}
 	}
 	// let the loss reach the client (FIN/RST delivery on loopback; scripted delay, not a verdict)
 	time.Sleep(500 * time.Millisecond)
@@ -1198,6 +1211,8 @@ func lossCases(rec *vcommon.Rec) (fast, slow []*anyCase) {
 	}
 	// a carrier without any close signal (KCP), with and without the pre-shared key: the loss is only found by the keep-alive
 	slow = append(slow, mk("udp", "black-hole", "", false), mk("udp+secret", "black-hole", "", false))
+	// the DNS tunnel: the server forgets the session (restart), or the path swallows everything
+	slow = append(slow, mk("dns", "server-restart", "", false), mk("dns", "black-hole", "", false))
 	if rec.Thorough() {
 		fast[0].Probe = true // tcp, FIN while idle: keep trying for 80 s to see whether and when the client recovers (diagnostic)
 		for _, k := range []string{"tcp", "ws"} {
@@ -1234,6 +1249,25 @@ func TestVerifC16(t *testing.T) {
 		return
 	}
 	lossFast, lossSlow := lossCases(rec)
+	// miekg/dns serves every DNS server of a process from one handler table ("." is registered by whichever server
+	// started last): a DNS endpoint needs a process of its own. C16_PART=dns:<n> runs the n-th DNS loss case alone.
+	var dnsLoss, otherSlow []*anyCase
+	for _, c := range lossSlow {
+		if c.Kind == "dns" {
+			dnsLoss = append(dnsLoss, c)
+		} else {
+			otherSlow = append(otherSlow, c)
+		}
+	}
+	lossSlow = otherSlow
+	if part := os.Getenv("C16_PART"); strings.HasPrefix(part, "dns:") {
+		n := 0
+		fmt.Sscanf(part[4:], "%d", &n)
+		if n >= 0 && n < len(dnsLoss) {
+			runAny(rec, dnsLoss[n])
+		}
+		return
+	}
 	if os.Getenv("C16_PART") == "slow" {
 		// every case here waits for a long time by construction (a silent upstream, a black-holed carrier):
 		// all of them run at once and share the wait
